@@ -609,6 +609,10 @@ class Models:
             except NATIVE_EXC as ex:
                 raise PyRaise(type(ex), ex.args)
         if isinstance(v, (SInt,)) and spec in ('', 'd'):
+            t = z3.IntToStr(v.e)
+            # theory lemmas (valid in SMT-LIB strings: str.from_int of a non-negative int is its decimal text), stated
+            # because neither solver derives them unprompted
+            ip.ctx.assume(z3.Implies(v.e >= 0, z3.And(z3.InRe(t, z3.Plus(z3.Range('0', '9'))), z3.StrToInt(t) == v.e)))
             return SStr(self.int_to_str(v.e))
         if isinstance(v, SBool) and spec == '':
             return SStr(z3.If(v.e, z3.StringVal('True'), z3.StringVal('False')))
@@ -638,7 +642,35 @@ class Models:
         return SStr(ip.ctx.fresh('fmt', z3.StringSort()))
 
     def str_to_int(self, ip, s):
-        raise Unsupported('int() of a symbolic string (enable contracts.lib_str)')
+        """int(s) for a symbolic string.  Decided only for canonical decimal text [0-9]+ (value = str.to_int); text with no
+        digit at all raises ValueError; every other spelling CPython accepts or rejects (sign, blanks, underscores,
+        non-ASCII digits) is outside the model -> Unsupported (the obligation stays undecided)"""
+        digit = z3.Range('0', '9')
+        if ip.ctx.branch(z3.InRe(s.e, z3.Plus(digit))):
+            v = ip.ctx.fresh('int_of_str')
+            ip.ctx.assume([v == z3.StrToInt(s.e), v >= 0])
+            return SInt(v)
+        if ip.ctx.branch(z3.InRe(s.e, z3.Star(z3.Union(z3.Range('\x00', '/'), z3.Range(':', '\x7f'))))):
+            py_raise(ValueError, 'invalid literal for int() with base 10')
+        raise Unsupported('int() of a symbolic string that is not plain ASCII decimal digits')
+
+    def str_split(self, ip, s, sep=None, maxsplit=-1):
+        """s.split(sep): decided exactly for zero or one occurrence of a concrete one-character separator; with two or more
+        occurrences the result is a list of unknown strings of unknown length >= 3 (sound over-approximation of the rest)"""
+        from .values import STR_EK
+        if not (isinstance(sep, str) and len(sep) == 1 and maxsplit == -1):
+            raise Unsupported('str.split on a symbolic string with sep=%r maxsplit=%r' % (sep, maxsplit))
+        zsep = z3.StringVal(sep)
+        if not ip.ctx.branch(z3.Contains(s.e, zsep)):
+            return [s]
+        a = ip.ctx.fresh('word', z3.StringSort())
+        rest = ip.ctx.fresh('word', z3.StringSort())
+        ip.ctx.assume([s.e == z3.Concat(a, zsep, rest), z3.Not(z3.Contains(a, zsep))])
+        if not ip.ctx.branch(z3.Contains(rest, zsep)):
+            return [SStr(a), SStr(rest)]
+        words = ip.ctx.fresh('words', STR_EK.seqsort)
+        ip.ctx.assume([z3.Length(words) >= 3, words[0] == a])
+        return SSeq(words, list, STR_EK)
 
     def str_to_float(self, ip, s):
         raise Unsupported('float() of a symbolic string (enable contracts.lib_str)')
